@@ -301,13 +301,20 @@ func cmdConcStress(args []string) {
 			}
 			b, _ := io.ReadAll(r)
 			return string(b)
+		case "fresh":
+			// queries on a freshly constructed (invalid) object of every kind: error paths run concurrently too
+			j := concJobs[o.a%len(concJobs)]
+			h := newHandle(j.fam, j.lvl, true)
+			q := []string{"Encode", "String", "GetError", "Score"}[o.b%4]
+			r := h.query(q)
+			return fmt.Sprintf("fresh %s=%v/%s/%d", q, r.Err, r.Str, r.Sc)
 		case "names":
 			nm := nameMetas[o.a%len(nameMetas)]
 			return nm.Title(langTags["ja"]) + "|" + nm.ValueOf(o.b%5, langTags["en"])
 		}
 		return "?"
 	}
-	kinds := []string{"decode", "query", "query", "view", "report", "names"}
+	kinds := []string{"decode", "query", "query", "view", "report", "names", "fresh"}
 	progs := make([][]op, *ng)
 	for g := range progs {
 		rng := newRand(7700 + g)
